@@ -100,10 +100,6 @@ Un(E, sc) ==
   \cup {<<"lsl", e, s[1], s[2], s[3]>> : s \in Alpha.LSl, e \in E}
 Bins(L, R) == {<<"bin", o, l, r>> : o \in Alpha.Ops, l \in L, r \in R}
 
-E0(sc) == {<<"var", n>> : n \in sc.vl \cup sc.sl}
-E1(sc) == Un(Vec(E0(sc), sc), sc) \cup Bins(E0(sc), E0(sc))
-E2(sc) == Un(Vec(E1(sc), sc), sc) \cup Bins(E0(sc), E1(sc)) \cup Bins(E1(sc), E0(sc))
-
 NameOrder == <<"X", "Y", "Q", "k", "lag", "lead", "diff", "nofn">>
 NameIdx(n) == CHOOSE i \in 1..Len(NameOrder) : NameOrder[i] = n
 OpIdx(o) == CASE o = "+" -> 1 [] o = "-" -> 2 [] o = "*" -> 3
@@ -119,15 +115,19 @@ H(e) ==
     [] t = "bin"  -> (H(e[3]) * 53 + H(e[4]) * 59 + OpIdx(e[2])) % 1009
 Sh_(S) == Sharded(S, H)
 
-\* this shard's expressions: the sub-term that carries the hash is filtered before the
-\* enclosing forms are built, so no shard ever materialises the whole 3-operator level
+\* this shard's expressions, by number of operator nodes: the sub-term that carries the hash
+\* is filtered before the enclosing forms are built, so no shard ever materialises the whole
+\* 3-operator level (LET definitions are evaluated once)
 ExprsS(sc) ==
-       Sh_(E0(sc))
-  \cup (IF MaxOps >= 1 THEN Sh_(E1(sc)) ELSE {})
-  \cup (IF MaxOps >= 2 THEN Sh_(E2(sc)) ELSE {})
-  \cup (IF MaxOps >= 3 THEN Un(Sh_(Vec(E2(sc), sc)), sc) \cup Bins(E0(sc), Sh_(E2(sc))) \cup Bins(Sh_(E2(sc)), E0(sc))
-                            \cup Bins(Sh_(E1(sc)), E1(sc))
-        ELSE {})
+  LET e0 == {<<"var", n>> : n \in sc.vl \cup sc.sl}
+      e1 == Un(Vec(e0, sc), sc) \cup Bins(e0, e0)
+      e2 == Un(Vec(e1, sc), sc) \cup Bins(e0, e1) \cup Bins(e1, e0)
+      s1 == Sh_(e1)
+      s2 == Sh_(e2)
+  IN   Sh_(e0)
+  \cup (IF MaxOps >= 1 THEN s1 ELSE {})
+  \cup (IF MaxOps >= 2 THEN s2 ELSE {})
+  \cup (IF MaxOps >= 3 THEN Un(Vec(s2, sc), sc) \cup Bins(e0, s2) \cup Bins(s2, e0) \cup Bins(s1, e1) ELSE {})
 
 EvCase(sc, sp, e) ==
   [kind |-> "ev", scen |-> sc.id, op |-> "", x |-> <<>>, p |-> 0, fill |-> NaN,
